@@ -143,6 +143,15 @@ def _cancel_safe(m):
     raise ValueError('recv shape not recognised')
 
 
+def _encode_verify(m):
+    body = m.group(1)
+    if re.search(r'res\.push\(0x81\)', body) and re.search(r'res\.push\(0x82\)', body):
+        return True
+    if re.search(r'res\.push\(2\);', body):
+        return False
+    raise ValueError('encode_verify shape not recognised')
+
+
 def _raise(msg):
     raise ValueError(msg)
 
@@ -155,6 +164,31 @@ EXTRA = _RTR + [
     ('asnCountSaturates', 'src/repository/resources/asres.rs',
      r'impl AsRange \{[\s\S]*?pub fn asn_count\(self\) -> u32 \{([\s\S]*?)\n    \}',
      lambda m: 'saturating' in m.group(1), ['C03', 'C04']),
+    # ---- C01
+    ('certVerifyCaSteps', 'src/repository/cert.rs',
+     r'pub fn verify_ca_at\([\s\S]*?\{\s*(self\.verify_validity\(now\)\?;\s*self\.verify_issuer_claim\(issuer, strict\)\?;\s*self\.verify_signature\(issuer, strict\)\?;\s*self\.verify_resources\(issuer, strict\))\s*\}',
+     lambda m: True, ['C01']),
+    ('certVerifyEeSteps', 'src/repository/cert.rs',
+     r'pub fn verify_ee_at\([\s\S]*?\{\s*(self\.verify_validity\(now\)\?;\s*self\.verify_issuer_claim\(issuer, strict\)\?;\s*self\.verify_signature\(issuer, strict\)\?;\s*self\.verify_resources\(issuer, strict\))\s*\}',
+     lambda m: True, ['C01', 'C02']),
+    ('certVerifyRouterSteps', 'src/repository/cert.rs',
+     r'pub fn verify_router_at\([\s\S]*?\{\s*(self\.verify_validity\(now\)\?;\s*self\.verify_issuer_claim\(issuer, strict\)\?;\s*self\.verify_signature\(issuer, strict\)\?;\s*self\.verify_as_resources\(issuer, strict\))\s*\}',
+     lambda m: True, ['C01']),
+    ('certIssuerClaimAki', 'src/repository/cert.rs',
+     r'pub fn verify_issuer_claim\([\s\S]*?(Some\(aki\) => \{\s*if aki != issuer\.cert\.subject_key_identifier\(\) \{\s*return Err)[\s\S]*?None => \{\s*return Err',
+     lambda m: True, ['C01']),
+    ('certSkiIsKeyHash', 'src/repository/cert.rs',
+     r'fn inspect_basics\([\s\S]*?(if self\.subject_key_identifier\(\)\s*!= self\.subject_public_key_info\(\)\.key_identifier\(\)\s*\{\s*return Err)',
+     lambda m: True, ['C01']),
+    ('certValidateCaInspects', 'src/repository/cert.rs',
+     r'pub fn validate_ca_at\([\s\S]*?\{\s*(self\.inspect_ca\(strict\)\?;\s*self\.verify_ca_at\(issuer, strict, now\))',
+     lambda m: True, ['C01']),
+    ('certValidateEeInspects', 'src/repository/cert.rs',
+     r'pub fn validate_ee_at\([\s\S]*?\{\s*(self\.inspect_ee\(strict\)\?;\s*self\.verify_ee_at\(issuer, strict, now\))',
+     lambda m: True, ['C01', 'C02']),
+    # ---- C02
+    ('encodeVerifyDerLength', 'src/repository/sigobj.rs',
+     r'pub fn encode_verify\(&self\) -> Vec<u8> \{([\s\S]*?)\n    \}', lambda m: _encode_verify(m), ['C02', 'C10']),
     # ---- C14
     ('mftExtLen', 'src/repository/manifest.rs', r'fn validate_file_name\(name: &\[u8\]\)[\s\S]*?if n\.len\(\) != (\d+) \|\| !n\.iter\(\)\.all\(\|c\| c\.is_ascii_alphabetic\(\)\)', 'nat', ['C14']),
     ('mftNameCheckedBothSites', 'src/repository/manifest.rs',
